@@ -6,12 +6,6 @@
 #define SM_H
 
 /* ---- well-formed inbound cursor ------------------------------------------------------------- */
-/* cursor order: 0 <= consume <= read <= len, receiver <= read (re-established by every state function) */
-#define CUR_IN_CURSOR(c) ((c)->in_current_len >= 0 && (c)->in_current_len <= CHUNK_CAP && \
-    0 <= (c)->in_current_consume_offset && (c)->in_current_consume_offset <= (c)->in_current_read_offset && \
-    (c)->in_current_read_offset <= (c)->in_current_len && \
-    0 <= (c)->in_current_receiver_offset && (c)->in_current_receiver_offset <= (c)->in_current_read_offset && \
-    (c)->in_stream_offset >= 0)
 /* entry only: the 64-bit stream offset has not yet passed 2^62 (so no counter wraps within this call) */
 #define CUR_IN_FIELDS(c) (CUR_IN_CURSOR(c) && (c)->in_stream_offset <= OFFMAX)
 /* chunk memory: a real chunk, or a gap (NULL with len > 0) where the state allows it */
@@ -21,11 +15,6 @@
     (c)->in_tx->request_message_len >= 0 && (c)->in_tx->request_message_len <= OFFMAX && \
     (c)->in_tx->request_entity_len >= 0 && (c)->in_tx->request_entity_len <= OFFMAX)
 
-#define CUR_OUT_CURSOR(c) ((c)->out_current_len >= 0 && (c)->out_current_len <= CHUNK_CAP && \
-    0 <= (c)->out_current_consume_offset && (c)->out_current_consume_offset <= (c)->out_current_read_offset && \
-    (c)->out_current_read_offset <= (c)->out_current_len && \
-    0 <= (c)->out_current_receiver_offset && (c)->out_current_receiver_offset <= (c)->out_current_read_offset && \
-    (c)->out_stream_offset >= 0)
 #define CUR_OUT_FIELDS(c) (CUR_OUT_CURSOR(c) && (c)->out_stream_offset <= OFFMAX)
 #define CUR_OUT(c) (__CPROVER_is_fresh((c), sizeof(htp_connp_t)) && CUR_OUT_FIELDS(c) && \
     (g_in_gap ? (c)->out_current_data == NULL : __CPROVER_is_fresh((c)->out_current_data, (c)->out_current_len)))
@@ -249,5 +238,92 @@ __CPROVER_requires(CUR_OUT(connp) && TX_OUT(connp) && !g_in_gap)
 __CPROVER_assigns(connp->out_next_byte, connp->out_current_read_offset, connp->out_current_consume_offset, connp->out_stream_offset, connp->out_tx->response_message_len, connp->out_state)
 __CPROVER_ensures(DATA_END_POST(connp, out_current_data, out_current_len, out_current_read_offset, out_current_consume_offset, out_stream_offset, connp->out_tx->response_message_len, out_state, htp_connp_RES_BODY_CHUNKED_LENGTH))
 __CPROVER_ensures(CUR_OUT_CURSOR(connp))
+;
+
+/* ==== request driver (C09, C16) ===================================================================== */
+/* The contract every request state function is replaced by when the DRIVER is verified.  Each state
+ * function's own enforced contract contains these clauses (macro RQ_COMMON_*), so enforced => shared. */
+/* DATA / DATA_BUFFER are only returned with the chunk exhausted; the cursor stays ordered and never moves back; chunk identity is kept */
+#define RQ_COMMON_POST(c) ( \
+    ((__CPROVER_return_value == HTP_DATA || __CPROVER_return_value == HTP_DATA_BUFFER) ==> (c)->in_current_read_offset == (c)->in_current_len) && \
+    CUR_IN_CURSOR(c) && (c)->in_current_read_offset >= O((c)->in_current_read_offset) && \
+    (c)->in_current_len == O((c)->in_current_len) && (c)->in_current_data == O((c)->in_current_data) && \
+    (c)->conn == O((c)->conn) && (c)->cfg == O((c)->cfg) && (c)->in_chunk_count == O((c)->in_chunk_count) && \
+    IS_REQ_STATE((c)->in_state) && REQ_TX_INV(c) && \
+    /* a state function never reports the sticky states itself; only CONNECT handling touches the stream states */ \
+    (c)->in_status != HTP_STREAM_STOP && (c)->in_status != HTP_STREAM_ERROR)
+/* a request transaction is attached in every state except IDLE and the HTTP/0.9 drain state */
+/* make every state function address-taken in this TU, so that CBMC's function-pointer removal knows the full target set */
+int (*v_all_states[])(htp_connp_t *) = { htp_connp_REQ_IDLE, htp_connp_REQ_LINE, htp_connp_REQ_PROTOCOL, htp_connp_REQ_HEADERS,
+    htp_connp_REQ_CONNECT_CHECK, htp_connp_REQ_CONNECT_WAIT_RESPONSE, htp_connp_REQ_CONNECT_PROBE_DATA, htp_connp_REQ_BODY_DETERMINE,
+    htp_connp_REQ_BODY_IDENTITY, htp_connp_REQ_BODY_CHUNKED_LENGTH, htp_connp_REQ_BODY_CHUNKED_DATA, htp_connp_REQ_BODY_CHUNKED_DATA_END,
+    htp_connp_REQ_FINALIZE, htp_connp_REQ_IGNORE_DATA_AFTER_HTTP_0_9, htp_connp_RES_IDLE, htp_connp_RES_LINE, htp_connp_RES_HEADERS,
+    htp_connp_RES_BODY_DETERMINE, htp_connp_RES_BODY_IDENTITY_CL_KNOWN, htp_connp_RES_BODY_IDENTITY_STREAM_CLOSE, htp_connp_RES_BODY_CHUNKED_LENGTH,
+    htp_connp_RES_BODY_CHUNKED_DATA, htp_connp_RES_BODY_CHUNKED_DATA_END, htp_connp_RES_FINALIZE };
+htp_status_t contract_req_state(htp_connp_t *connp)
+__CPROVER_requires(__CPROVER_rw_ok(connp, sizeof(*connp)) && CUR_IN_CURSOR(connp) && IS_REQ_STATE(connp->in_state))
+__CPROVER_requires(connp->in_status != HTP_STREAM_STOP && connp->in_status != HTP_STREAM_ERROR && (connp->in_tx != NULL || connp->in_state == htp_connp_REQ_IDLE || connp->in_state == htp_connp_REQ_IGNORE_DATA_AFTER_HTTP_0_9))
+__CPROVER_assigns(RQ_STATE_FRAME(connp))
+/* g_state_calls is a sticky flag: 0 = no state function has run since the harness cleared it */
+__CPROVER_ensures(g_state_calls == 1)
+__CPROVER_ensures(RQ_COMMON_POST(connp))
+;
+/* helpers of the driver, replaced: they run callbacks (any of OK / STOP / ERROR) and touch only receiver bookkeeping */
+htp_status_t contract_htp_req_handle_state_change(htp_connp_t *connp)
+__CPROVER_requires(__CPROVER_rw_ok(connp, sizeof(*connp)))
+__CPROVER_assigns(connp->in_state_previous, connp->in_data_receiver_hook, connp->in_current_receiver_offset)
+__CPROVER_ensures(connp->in_current_receiver_offset == O(connp->in_current_receiver_offset) || connp->in_current_receiver_offset == connp->in_current_read_offset)
+__CPROVER_ensures(__CPROVER_return_value == HTP_OK || __CPROVER_return_value == HTP_STOP || __CPROVER_return_value == HTP_ERROR)
+;
+htp_status_t contract_htp_connp_req_receiver_send_data(htp_connp_t *connp, int is_last)
+__CPROVER_requires(__CPROVER_rw_ok(connp, sizeof(*connp)))
+__CPROVER_assigns(connp->in_current_receiver_offset)
+__CPROVER_ensures(connp->in_current_receiver_offset == O(connp->in_current_receiver_offset) || connp->in_current_receiver_offset == connp->in_current_read_offset)
+;
+/* buffering of the unconsumed tail (enforced on the real function by unit htp_connp_req_buffer, C10) */
+htp_status_t contract_site_htp_connp_req_buffer(htp_connp_t *connp)
+__CPROVER_requires(__CPROVER_rw_ok(connp, sizeof(*connp)))
+__CPROVER_assigns(connp->in_buf, connp->in_buf_size, connp->in_current_consume_offset)
+__CPROVER_ensures(__CPROVER_return_value == HTP_OK || __CPROVER_return_value == HTP_ERROR)
+__CPROVER_ensures(__CPROVER_return_value == HTP_OK ==> (connp->in_current_consume_offset == connp->in_current_read_offset || connp->in_current_consume_offset == O(connp->in_current_consume_offset)))
+__CPROVER_ensures(__CPROVER_return_value != HTP_OK ==> connp->in_current_consume_offset == O(connp->in_current_consume_offset))
+;
+htp_status_t contract_site_htp_tx_state_request_complete(htp_tx_t *tx)
+__CPROVER_requires(tx != NULL)
+__CPROVER_assigns(g_txstate_n)
+__CPROVER_ensures(g_txstate_n == 1)
+__CPROVER_ensures(__CPROVER_return_value == HTP_OK || __CPROVER_return_value == HTP_STOP || __CPROVER_return_value == HTP_ERROR)
+;
+
+#define STREAM_STATE_OK(s) ((s) == HTP_STREAM_NEW || (s) == HTP_STREAM_OPEN || (s) == HTP_STREAM_CLOSED || (s) == HTP_STREAM_ERROR || \
+    (s) == HTP_STREAM_TUNNEL || (s) == HTP_STREAM_DATA_OTHER || (s) == HTP_STREAM_STOP || (s) == HTP_STREAM_DATA)
+int contract_htp_connp_req_data(htp_connp_t *connp, const htp_time_t *timestamp, const void *data, size_t len)
+__CPROVER_requires(__CPROVER_is_fresh(connp, sizeof(*connp)) && __CPROVER_is_fresh(connp->conn, sizeof(htp_conn_t)))
+__CPROVER_requires(timestamp == NULL || __CPROVER_is_fresh(timestamp, sizeof(*timestamp)))
+__CPROVER_requires(len <= CHUNK_CAP && (g_in_gap ? data == NULL : __CPROVER_is_fresh(data, len)))
+__CPROVER_requires(IS_REQ_STATE(connp->in_state) && STREAM_STATE_OK(connp->in_status) && STREAM_STATE_OK(connp->out_status))
+__CPROVER_requires(connp->in_stream_offset >= 0 && connp->in_stream_offset <= OFFMAX && connp->conn->in_data_counter >= 0 && connp->conn->in_data_counter <= OFFMAX)
+__CPROVER_requires(g_state_calls == 0 && g_txstate_n == 0 && connp->in_chunk_count < ((size_t) 1 << 62))
+__CPROVER_assigns(RQ_STATE_FRAME(connp), g_txstate_n, connp->conn->in_data_counter)
+/* 1. documented stream states only */
+__CPROVER_ensures(__CPROVER_return_value == HTP_STREAM_DATA || __CPROVER_return_value == HTP_STREAM_DATA_OTHER || __CPROVER_return_value == HTP_STREAM_STOP ||
+                  __CPROVER_return_value == HTP_STREAM_ERROR || __CPROVER_return_value == HTP_STREAM_TUNNEL || __CPROVER_return_value == HTP_STREAM_CLOSED)
+/* 2. sticky failure: STOP / ERROR on entry is reported again, no state function and no transition runs, nothing but the log is touched */
+__CPROVER_ensures((O(connp->in_status) == HTP_STREAM_STOP || O(connp->in_status) == HTP_STREAM_ERROR) ==> (
+    __CPROVER_return_value == (int) O(connp->in_status) && connp->in_status == O(connp->in_status) && g_state_calls == 0 && g_txstate_n == 0 &&
+    connp->in_state == O(connp->in_state) && connp->in_current_read_offset == O(connp->in_current_read_offset) && connp->conn->in_data_counter == O(connp->conn->in_data_counter)))
+/* 3. DATA means the whole chunk was consumed; DATA_OTHER means strictly fewer, resume at the reported count */
+__CPROVER_ensures(__CPROVER_return_value == HTP_STREAM_DATA ==> (connp->in_current_read_offset == (int64_t) len && connp->in_status == HTP_STREAM_DATA))
+__CPROVER_ensures(__CPROVER_return_value == HTP_STREAM_DATA_OTHER ==> (connp->in_current_read_offset < (int64_t) len && connp->in_current_read_offset >= 0 && connp->in_status == HTP_STREAM_DATA_OTHER))
+/* 4. STOP / ERROR become sticky */
+__CPROVER_ensures((__CPROVER_return_value == HTP_STREAM_STOP || __CPROVER_return_value == HTP_STREAM_ERROR) ==> connp->in_status == (enum htp_stream_state_t) __CPROVER_return_value)
+/* 5. tunnel mode on entry: TUNNEL reported, no state function runs (C16); the bytes are still counted */
+/* (a parser without a request transaction outside IDLE is rejected by the sanity guard first: HTTP/0.9 drain state) */
+__CPROVER_ensures((O(connp->in_status) == HTP_STREAM_TUNNEL && len > 0 && (O(connp->in_tx) != NULL || O(connp->in_state) == htp_connp_REQ_IDLE)) ==> (__CPROVER_return_value == HTP_STREAM_TUNNEL && g_state_calls == 0 && g_txstate_n == 0 && connp->in_status == HTP_STREAM_TUNNEL))
+/* 6. byte counter: every call that passes the entry guards adds exactly len */
+__CPROVER_ensures((O(connp->in_status) != HTP_STREAM_STOP && O(connp->in_status) != HTP_STREAM_ERROR && (O(connp->in_tx) != NULL || O(connp->in_state) == htp_connp_REQ_IDLE) &&
+                   (len > 0 || O(connp->in_status) == HTP_STREAM_CLOSED)) ==> connp->conn->in_data_counter == O(connp->conn->in_data_counter) + (int64_t) len)
+/* 7. the parser never un-suspends itself: the response side's DATA_OTHER is cleared only by offering request data */
+__CPROVER_ensures(IS_REQ_STATE(connp->in_state))
 ;
 #endif
